@@ -118,3 +118,27 @@ check(
     "Trusted: TLC, interning of outputs (equal ids <=> equal texts), the fresh-process reference server of c17_styles. Same process and terminal width for shared and fresh runs; every run gets a new StringArgs object (re-using one RawArgs object is outside the statement). BlockLayout re-rendered directly is not counted as a component.",
     "DESIGN.md#C17",
 )
+check(
+    "C15",
+    ["Sections", "SectionsTrace"],
+    "TLA+ model of SectionOutput over the shared per-cell Terminal model (P: ScreenMatches - the screen shows exactly the stacked section contents, also for wrapped lines; plain degradation; A: shared newest-first list, _content/_lines counters, pop-and-reprint) checked by TLC; behaviours replayed on real SectionOutputs with COLUMNS fixed, emitted bytes tokenised into terminal ops and folded by TLC in SectionsTrace.tla",
+    "TLC explores every operation sequence up to depth 6 (quick) / 7-8 (thorough) over 1-3 sections with create / write_line (1-2 lines) / overwrite / clear() / clear(n) and line lengths below, at and above the terminal width (W = 4, also 7), checking ScreenMatches after every operation on the terminal model; the pinned variant must exhibit the clear(n)-over-a-wrapped-line defect; about 12.6 k (quick) / 112 k (thorough) behaviours are replayed on real section outputs whose bytes are only tokenised by Python and interpreted by the TLA+ terminal; 600 / 6000 random sequences up to length 40 with widths 4, 7, 20.",
+    "Trusted: TLC, harness/engine/termbytes.py (tokeniser, no emulation), Terminal.tla as the environment model (unbounded height, LF acts as CR+LF). Section indentation, clear(0) and clear(n) beyond the content are outside.",
+    "DESIGN.md#C15",
+)
+check(
+    "C16",
+    ["ProgressBar", "ProgressBarTrace"],
+    "TLA+ model of ProgressBar in integer milliseconds and exact integer arithmetic over the Terminal model (P: frame truthfulness, bar width, throttle, finish at 100 %, ANSI line = latest frame, plain own-line, quiet silence; A: redraw decision, overwrite padding) checked by TLC; call sequences with clock advances replayed on the real ProgressBar under a virtual clock; recorded runs decided by ProgressBarTrace.tla",
+    "TLC explores all sequences of start / advance / set_progress / display / clear / finish with clock advances {0,10,50,200,2000 ms} up to depth 4 (quick) / 6-9 (thorough) for maxima {0,1,3,10}, several bar widths and custom formats on ANSI, plain, section and quiet outputs; 43 k (quick) / 250 k (thorough) behaviours are replayed on the real bar with progress_bar.time replaced by a virtual clock and the emitted bytes folded on the TLA+ terminal; random sequences up to 60 calls incl. sweeps over every step of maxima 50 and 200.",
+    "Trusted: TLC, termbytes tokeniser, virtual clock substitution, Terminal.tla. The frame is assumed to fit the terminal width; a multi-line format overwriting the line above its first frame is pinned by the repository's own test and outside the statement.",
+    "DESIGN.md#C16",
+)
+check(
+    "C04",
+    ["AppRun", "AppRunTrace"],
+    "TLA+ step machine of ConsoleApplication.run / Command.handle (CreateIO, PreResolve, Resolve, PreHandle per listener, InvokeHandler, Normalise, Catch, Report, Return) with the environment fixed per behaviour; P: Contained, ZeroIff, Clamped, Reported, Interrupt, CallsOK + termination; every environment run on real applications and decided by AppRunTrace.tla",
+    "TLC explores the full product of environments (application kind x catch x verbosity x 7 command lines x pre-resolve listener x pre-handle listener sequences x 18 handler return values x 15 exception kinds: 279 k states quick, 4 M thorough) and checks the six property clauses and termination; 2 312 / 14 592 emitted environments and 1 000 / 20 000 random ones (random messages with tags, causes, exec'd sources) are run on real ConsoleApplications with recording handlers and buffered streams, every run decided by TLC including that the report shows the exception's message (style markup aside).",
+    "Trusted: TLC, recording handlers, ShownText.tla (copy of C20's 'markup aside' matcher). SystemExit/GeneratorExit are outside the quantifier; quiet mode, I/O-factory and constructor failures are not in the product. exception_to_exit_code never uses a 'code' attribute (status 1): non-zero is all the statement demands.",
+    "DESIGN.md#C04",
+)
